@@ -452,13 +452,13 @@ def run_sharded(mod: Any, ctx: Ctx, tier: str, nshards: int) -> None:
         mod.campaign(ctx, tier, 0, 1)
         return
     import multiprocessing as mp
+    from concurrent.futures import ProcessPoolExecutor
 
-    mpctx = mp.get_context("fork")
-    with mpctx.Pool(nshards) as pool:
-        results = pool.map(
-            _shard_entry,
-            [(mod.__name__, tier, ctx.seed, s, nshards) for s in range(nshards)],
-            chunksize=1,
+    # executor workers are not daemonic, so a shard may start its own helper
+    # processes (the zygote of vf.isolate)
+    with ProcessPoolExecutor(max_workers=nshards, mp_context=mp.get_context("fork")) as pool:
+        results = list(
+            pool.map(_shard_entry, [(mod.__name__, tier, ctx.seed, s, nshards) for s in range(nshards)], chunksize=1)
         )
     for r in results:
         if "error" in r:
